@@ -2,9 +2,12 @@
 import collections
 import hashlib
 import json
-import multiprocessing
 import os
+import pickle
+import shutil
+import signal
 import sys
+import tempfile
 import time
 import traceback
 
@@ -116,33 +119,88 @@ class Ctx(Partial):
         return self.tier == 'thorough'
 
 
-def _worker(args):
-    fn, item = args
+def _run_child(fn, item, path):
+    """Runs in a forked child: execute fn(item), pickle the result to `path`, never return."""
+    code = 0
     try:
         import_guard()
-        return fn(item)
-    except Exception:  # pylint: disable=broad-except
-        return ('__error__', traceback.format_exc())
+        res = fn(item)
+        with open(path + '.tmp', 'wb') as fh:
+            pickle.dump(('ok', res), fh, protocol=pickle.HIGHEST_PROTOCOL)
+    except BaseException:  # pylint: disable=broad-except
+        code = 1
+        try:
+            with open(path + '.tmp', 'wb') as fh:
+                pickle.dump(('error', traceback.format_exc()), fh)
+        except BaseException:  # pylint: disable=broad-except
+            code = 2
+    try:
+        os.replace(path + '.tmp', path)
+    except OSError:
+        code = 2
+    sys.stdout.flush()
+    sys.stderr.flush()
+    os._exit(code)  # pylint: disable=protected-access
 
 
-def pmap(fn, items, jobs=None):
-    """Run fn(item)->Partial for every item in worker processes (fork) and yield results."""
+def pmap(fn, items, jobs=None, timeout=None):
+    """Run fn(item) for every item in forked worker processes; yield the results as they complete.
+    Own minimal pool (fork + result files): a crashing or hanging worker can never hang the parent -
+    every job is under a wall-clock limit and failures become HarnessError (exit 2, no verdict)."""
     items = list(items)
     jobs = min(jobs or NCPU, max(1, len(items)))
-    if jobs <= 1 or os.environ.get('VF_SERIAL'):
+    timeout = timeout or float(os.environ.get('VF_JOB_TIMEOUT', '3600'))
+    if os.environ.get('VF_SERIAL'):
         for item in items:
-            res = _worker((fn, item))
-            if isinstance(res, tuple) and res and res[0] == '__error__':
-                raise HarnessError('worker failed:\n' + res[1])
-            yield res
+            import_guard()
+            yield fn(item)
         return
-    mpctx = multiprocessing.get_context('fork')
-    with mpctx.Pool(jobs) as pool:
-        for res in pool.imap_unordered(_worker, [(fn, i) for i in items], chunksize=1):
-            if isinstance(res, tuple) and res and res[0] == '__error__':
-                pool.terminate()
-                raise HarnessError('worker failed:\n' + res[1])
+    tmpdir = tempfile.mkdtemp(prefix='vf_pmap_')
+    running = {}   # pid -> (index, start)
+    nxt = 0
+    try:
+        while nxt < len(items) or running:
+            while nxt < len(items) and len(running) < jobs:
+                path = os.path.join(tmpdir, f'r{nxt}')
+                sys.stdout.flush()
+                sys.stderr.flush()
+                pid = os.fork()
+                if pid == 0:
+                    _run_child(fn, items[nxt], path)
+                running[pid] = (nxt, time.time())
+                nxt += 1
+            pid, status = os.waitpid(-1, os.WNOHANG)
+            if pid == 0:
+                now = time.time()
+                for p, (idx, start) in running.items():
+                    if now - start > timeout:
+                        raise HarnessError(f'worker for job {idx} exceeded {timeout}s')
+                time.sleep(0.005)
+                continue
+            if pid not in running:
+                continue
+            idx, _start = running.pop(pid)
+            path = os.path.join(tmpdir, f'r{idx}')
+            if not os.path.exists(path):
+                raise HarnessError(f'worker for job {idx} died (status {status}) without a result')
+            with open(path, 'rb') as fh:
+                tag, res = pickle.load(fh)
+            os.unlink(path)
+            if tag != 'ok':
+                raise HarnessError('worker failed:\n' + res)
             yield res
+    finally:
+        for p in running:
+            try:
+                os.kill(p, signal.SIGKILL)
+            except OSError:
+                pass
+        for p in running:
+            try:
+                os.waitpid(p, 0)
+            except OSError:
+                pass
+        shutil.rmtree(tmpdir, ignore_errors=True)
 
 
 def load_known():
